@@ -2,6 +2,7 @@ package datatypes
 
 import (
 	"fmt"
+	"sync"
 	"github.com/orda-io/orda/client/pkg/constants"
 	"github.com/orda-io/orda/client/pkg/errors"
 	"github.com/orda-io/orda/client/pkg/iface"
@@ -15,6 +16,9 @@ type WiredDatatype struct {
 	wire        iface.Wire
 	checkPoint  *model.CheckPoint
 	localBuffer []*model.Operation
+	// bufferMutex guards localBuffer: local calls append to it while syncs running in other goroutines
+	// (realtime deliveries, notifications) read it to build their packs
+	bufferMutex sync.Mutex
 }
 
 // NewWiredDatatype creates a new wiredDatatype
@@ -29,7 +33,9 @@ func NewWiredDatatype(w iface.Wire, t *TransactionDatatype) *WiredDatatype {
 
 // ResetWired resets the data related to WiredDatatype
 func (its *WiredDatatype) ResetWired() {
+	its.bufferMutex.Lock()
 	its.localBuffer = make([]*model.Operation, 0, constants.OperationBufferSize)
+	its.bufferMutex.Unlock()
 	its.opID.Seq = 0
 }
 
@@ -96,7 +102,8 @@ func (its *WiredDatatype) CreatePushPullPack() *model.PushPullPack {
 }
 
 func (its *WiredDatatype) getModelOperations(cseq uint64) []*model.Operation {
-
+	its.bufferMutex.Lock()
+	defer its.bufferMutex.Unlock()
 	if len(its.localBuffer) == 0 {
 		return []*model.Operation{}
 	}
@@ -104,7 +111,7 @@ func (its *WiredDatatype) getModelOperations(cseq uint64) []*model.Operation {
 	startCseq := op.ID.GetSeq()
 	var start = int(cseq - startCseq)
 	if start >= 0 && len(its.localBuffer) > start {
-		return its.localBuffer[start:]
+		return append([]*model.Operation{}, its.localBuffer[start:]...)
 	}
 	// FIXME: return error?
 	return []*model.Operation{}
@@ -204,7 +211,9 @@ func (its *WiredDatatype) updateStateOfDatatype(
 		model.StateOfDatatype_DUE_TO_SUBSCRIBE,
 		model.StateOfDatatype_DUE_TO_SUBSCRIBE_CREATE:
 		if its.state == model.StateOfDatatype_DUE_TO_SUBSCRIBE_CREATE && ppp.GetPushPullPackOption().HasSubscribeBit() {
+			its.bufferMutex.Lock()
 			its.localBuffer = make([]*model.Operation, 0, constants.OperationBufferSize)
+			its.bufferMutex.Unlock()
 			newOpID := model.NewOperationIDWithCUID(its.opID.CUID)
 			newOpID.Lamport = 1 // Because of SnapshotOperation
 			its.SetOpID(newOpID)
@@ -270,9 +279,11 @@ func (its *WiredDatatype) callHandlers(
 // DeliverTransaction delivers the transaction if needed
 func (its *WiredDatatype) DeliverTransaction(transaction []iface.Operation) {
 
+	its.bufferMutex.Lock()
 	for _, op := range transaction {
 		its.localBuffer = append(its.localBuffer, op.ToModelOperation())
 	}
+	its.bufferMutex.Unlock()
 	if its.wire == nil && its.ctx.Client.SyncType != model.SyncType_REALTIME {
 		return
 	}
